@@ -25,10 +25,11 @@ func rsiRef(x ref.S, p int) ref.S {
 	}, g, l)
 }
 
-func ppoRef(x ref.S, short, long, signal int) []ref.S {
-	el := ref.Ema(x, long)
-	p := ref.ScaleS(ref.DivS(ref.SubS(ref.Ema(x, short), el), el), 100)
-	s := ref.Ema(p, signal)
+func ppoRef(x ref.S, c Config) []ref.S {
+	short, long, signal := c.P[0], c.P[1], c.P[2]
+	el := ref.EmaK(x, long, c.Sm(1))
+	p := ref.ScaleS(ref.DivS(ref.SubS(ref.EmaK(x, short, c.Sm(0)), el), el), 100)
+	s := ref.EmaK(p, signal, c.Sm(2))
 	return []ref.S{ref.Tail(p, s.At), s, ref.SubS(p, s)}
 }
 
@@ -56,15 +57,18 @@ func momentumInds() []Ind {
 			Build: func(c Config) (func([]C) []C, int) {
 				a := momentum.NewChaikinOscillator[float64]()
 				a.ShortEma.Period, a.LongEma.Period = c.P[0], c.P[1]
+				if len(c.S) > 0 {
+					a.ShortEma.Smoothing, a.LongEma.Smoothing = c.Sm(0), c.Sm(1)
+				}
 				return func(in []C) []C { return o2(a.Compute(in[0], in[1], in[2], in[3])) }, a.IdlePeriod()
 			},
 			Doc: "CO = Ema(fastPeriod, AD) - Ema(slowPeriod, AD); second output: the A/D line",
 			Ref: func(c Config, in In) []ref.S {
 				ad := adRef(in)
-				co := ref.SubS(ref.Ema(ad, c.P[0]), ref.Ema(ad, c.P[1]))
+				co := ref.SubS(ref.EmaK(ad, c.P[0], c.Sm(0)), ref.EmaK(ad, c.P[1], c.Sm(1)))
 				return []ref.S{co, ref.Tail(ad, co.At)}
 			},
-			PriceDeg: []int{0, 0}, VolDeg: []int{1, 1}, Recursive: true,
+			PriceDeg: []int{0, 0}, VolDeg: []int{1, 1}, Recursive: true, NS: 2,
 		},
 		{
 			Name: "IchimokuCloud", Inputs: []string{High, Low, Close}, Params: []Param{per("conversion", 9), per("base", 26), per("leading", 52), per("lagging", 26)},
@@ -104,11 +108,14 @@ func momentumInds() []Ind {
 			Build: func(c Config) (func([]C) []C, int) {
 				a := momentum.NewPpo[float64]()
 				a.ShortEma.Period, a.LongEma.Period, a.SignalEma.Period = c.P[0], c.P[1], c.P[2]
+				if len(c.S) > 0 {
+					a.ShortEma.Smoothing, a.LongEma.Smoothing, a.SignalEma.Smoothing = c.Sm(0), c.Sm(1), c.Sm(2)
+				}
 				return func(in []C) []C { return o3(a.Compute(in[0])) }, a.IdlePeriod()
 			},
 			Doc:      "PPO = ((EMA(short) - EMA(long)) / EMA(long)) * 100; Signal = EMA(9, PPO); Histogram = PPO - Signal",
-			Ref:      func(c Config, in In) []ref.S { return ppoRef(in[X], c.P[0], c.P[1], c.P[2]) },
-			PriceDeg: []int{0, 0, 0}, VolDeg: []int{0, 0, 0}, Recursive: true,
+			Ref:      func(c Config, in In) []ref.S { return ppoRef(in[X], c) },
+			PriceDeg: []int{0, 0, 0}, VolDeg: []int{0, 0, 0}, Recursive: true, NS: 3,
 		},
 		{
 			Name: "Pvo", Inputs: []string{Volume}, Params: []Param{per("short", 12), per("long", 26), per("signal", 9)}, Outs: []string{"pvo", "signal", "histogram"},
@@ -116,14 +123,17 @@ func momentumInds() []Ind {
 			Build: func(c Config) (func([]C) []C, int) {
 				a := momentum.NewPvo[float64]()
 				a.ShortEma.Period, a.LongEma.Period, a.SignalEma.Period = c.P[0], c.P[1], c.P[2]
+				if len(c.S) > 0 {
+					a.ShortEma.Smoothing, a.LongEma.Smoothing, a.SignalEma.Smoothing = c.Sm(0), c.Sm(1), c.Sm(2)
+				}
 				return func(in []C) []C { return o3(a.Compute(in[0])) }, a.IdlePeriod()
 			},
 			Doc:      "PVO = ((EMA(short, volumes) - EMA(long, volumes)) / EMA(long, volumes)) * 100; Signal = EMA(9, PVO); Histogram = PVO - Signal",
-			Ref:      func(c Config, in In) []ref.S { return ppoRef(in[Volume], c.P[0], c.P[1], c.P[2]) },
-			PriceDeg: []int{0, 0, 0}, VolDeg: []int{0, 0, 0}, Recursive: true,
+			Ref:      func(c Config, in In) []ref.S { return ppoRef(in[Volume], c) },
+			PriceDeg: []int{0, 0, 0}, VolDeg: []int{0, 0, 0}, Recursive: true, NS: 3,
 		},
 		{
-			Name: "Qstick", Inputs: []string{Open, Close}, Params: []Param{per("period", 5)}, Outs: []string{"qs"},
+			Name: "Qstick", Inputs: []string{Open, Close}, Params: []Param{per("period", 20)}, Outs: []string{"qs"},
 			Build: func(c Config) (func([]C) []C, int) {
 				a := momentum.NewQstick[float64]()
 				a.Sma.Period = c.P[0]
